@@ -646,3 +646,110 @@ Proof.
   intro Hf. destruct (trims_total (end_of s) arms (S (length (Parser.p_str P))) (Parser.p_str P) ltac:(lia)) as [out Ht].
   destruct (trim_chain_complete s arms _ _ Ht P eq_refl Hf) as (Q & HQ & _). now exists Q.
 Qed.
+
+(* ------------------------------------------------------------------ one alternative: the method itself *)
+
+Definition trim_op (s : side) (a : list Z) : Parser.pop :=
+  match s with AtStart => Parser.OTrimStartMatches a | AtEnd => Parser.OTrimEndMatches a end.
+
+Lemma nth_error_single {A} (x y : A) j : nth_error [x] j = Some y -> j = 0%nat /\ x = y.
+Proof.
+  destruct j as [|j]; cbn [nth_error].
+  - intro H; inversion H; auto.
+  - destruct j; discriminate.
+Qed.
+
+Lemma trims_single_nil e i0 bytes out : trims e [(i0, [])] bytes out -> out = bytes.
+Proof.
+  induction 1 as [bytes Hn | bytes j i Hfl | bytes j i a r out (Hnth & _) Hne _ _ _]; try reflexivity.
+  apply nth_error_single in Hnth. destruct Hnth as [_ E]. inversion E. congruence.
+Qed.
+
+Lemma trims_single_front i0 a bytes out : a <> [] ->
+  trims Front [(i0, a)] bytes out -> trim_start_spec bytes a out.
+Proof.
+  intro Hne. induction 1 as [bytes Hn | bytes j i (Hnth & _) | bytes j i a' r out (Hnth & _) _ Hr _ IH].
+  - exists 0%nat. split; [reflexivity|]. intros [r Hr]. apply (Hn i0 a); [now left | now exists r].
+  - apply nth_error_single in Hnth. destruct Hnth as [_ E]. inversion E. congruence.
+  - apply nth_error_single in Hnth. destruct Hnth as [_ E]. inversion E; subst a'.
+    destruct IH as (k & Ek & Hk). exists (S k). split; [|exact Hk].
+    cbn [splits] in Hr. rewrite Hr, Ek, reps_S. now rewrite app_assoc.
+Qed.
+
+Lemma trims_single_back i0 a bytes out : a <> [] ->
+  trims Back [(i0, a)] bytes out -> trim_end_spec bytes a out.
+Proof.
+  intro Hne. induction 1 as [bytes Hn | bytes j i (Hnth & _) | bytes j i a' r out (Hnth & _) _ Hr _ IH].
+  - exists 0%nat. split; [cbn; now rewrite app_nil_r|]. intros [r Hr]. apply (Hn i0 a); [now left | now exists r].
+  - apply nth_error_single in Hnth. destruct Hnth as [_ E]. inversion E. congruence.
+  - apply nth_error_single in Hnth. destruct Hnth as [_ E]. inversion E; subst a'.
+    destruct IH as (k & Ek & Hk). exists (S k). split; [|exact Hk].
+    cbn [splits] in Hr. rewrite Hr, Ek, reps_S_r. now rewrite app_assoc.
+Qed.
+
+(** with one alternative the trimming relation is the free function's result *)
+Lemma trims_single_fn s i0 a bytes out : trims (end_of s) [(i0, a)] bytes out ->
+  match s with
+  | AtStart => trim_start_matches_m bytes a
+  | AtEnd => trim_end_matches_m bytes a
+  end = Some out.
+Proof.
+  intro H. destruct a as [|c a'].
+  - apply trims_single_nil in H. subst out.
+    destruct s; [apply trim_start_matches_empty | apply trim_end_matches_empty].
+  - destruct s; cbn [end_of] in H.
+    + apply trim_start_matches_correct; [discriminate|]. eapply trims_single_front; [discriminate | exact H].
+    + apply trim_end_matches_correct; [discriminate|]. eapply trims_single_back; [discriminate | exact H].
+Qed.
+
+(** trim_single_eq_method: parser_method!{p, trim_start_matches; A} is p.trim_start_matches(A)
+    (and the same for trim_end_matches) *)
+Lemma trim_macro_single s a P :
+  fits_for s P -> str_shape (Parser.p_str P) -> str_shape a ->
+  exists Q, Parser.step P (trim_op s a) = Parser.POk Parser.VNone Q /\
+            trim_macro s [a] (abs P) = Some (abs Q).
+Proof.
+  intros Hf Hp Hsa.
+  assert (Ha : arms_shaped (arms_of [[a]])).
+  { intros i x [E|[]]. inversion E; subst. exact Hsa. }
+  destruct (trim_macro_cut s [a] (abs P) Hp Ha) as (out & Ht & E). rewrite E.
+  cbn [abs p_rem] in Ht. change (arms_of [[a]]) with [(0%nat, a)] in Ht, Ha.
+  pose proof (trims_single_fn s 0%nat a _ _ Ht) as Hfn.
+  destruct s; cbn [trim_op end_of fits_for] in *.
+  - rewrite step_trim_start, Hfn. cbn [Parser.unwrap_trim]. eexists. split; [reflexivity|]. f_equal.
+    destruct (trims_front_shape _ _ _ Ha Ht Hp) as (_ & x & Ex). symmetry. now apply (abs_start_to P x out).
+  - rewrite step_trim_end, Hfn. cbn [Parser.unwrap_trim]. eexists. split; [reflexivity|]. reflexivity.
+Qed.
+
+(* ------------------------------------------------------------------ the flag is not touched *)
+
+(** the one field [abs] forgets is left alone by every call of the chains, so the
+    equalities above are equalities of whole parsers *)
+Lemma find_keeps_flag P a Q :
+  Parser.step P (Parser.OFindSkip a) = Parser.POk Parser.VNone Q -> Parser.p_yls Q = Parser.p_yls P.
+Proof. rewrite step_find. destruct (find_skip_m _ _); [|discriminate]. intro H; inversion H; reflexivity. Qed.
+Lemma rfind_keeps_flag P a Q :
+  Parser.step P (Parser.ORFindSkip a) = Parser.POk Parser.VNone Q -> Parser.p_yls Q = Parser.p_yls P.
+Proof. rewrite step_rfind. destruct (rfind_skip_m _ _); [|discriminate]. intro H; inversion H; reflexivity. Qed.
+Lemma strip_keeps_flag s P a Q :
+  Parser.step P (strip_op s a) = Parser.POk Parser.VNone Q -> Parser.p_yls Q = Parser.p_yls P.
+Proof.
+  destruct s; cbn [strip_op]; [rewrite step_strip_prefix; destruct (strip_prefix_m _ _)
+                              | rewrite step_strip_suffix; destruct (strip_suffix_m _ _)];
+    try discriminate; intro H; inversion H; reflexivity.
+Qed.
+Lemma trim_keeps_flag s P a Q :
+  Parser.step P (trim_op s a) = Parser.POk Parser.VNone Q -> Parser.p_yls Q = Parser.p_yls P.
+Proof. destruct s; cbn [trim_op]; [rewrite step_trim_start | rewrite step_trim_end]; intro H; inversion H; reflexivity. Qed.
+Lemma trim_chain_keeps_flag s arms P Q : trim_chain s arms P Q -> Parser.p_yls Q = Parser.p_yls P.
+Proof.
+  induction 1 as [P _ | P j i _ | P j i a Q out _ _ Hs _ IH]; try reflexivity.
+  rewrite IH. eapply strip_keeps_flag; eassumption.
+Qed.
+
+(** a Model.Parser parser is its macro-model view plus the flag *)
+Lemma abs_inj P Q : abs P = abs Q -> Parser.p_yls P = Parser.p_yls Q -> P = Q.
+Proof.
+  destruct P as [d y st s], Q as [d' y' st' s']. unfold abs. cbn. intros H ->. inversion H; subst.
+  destruct d, d'; cbn in *; try discriminate; reflexivity.
+Qed.
